@@ -4,7 +4,9 @@
 // blobserver.CreateStorage("replica", …) over memory replicas, each behind its own
 // inject.Storage (own inject.Plan).  See write.go (quorum monitor), read.go (overlap
 // patterns, replica loss on fetch, stat/enumerate de-duplication) and history.go (sequential
-// reference-map history with all replicas synchronous).
+// reference-map history with all replicas synchronous).  Round 4: cfgwrite.go (wc/: the config
+// constructor's minWritesForSuccess x readBackends matrix), errkinds.go (we/: which error / wrong
+// answer a failing replica gives), cancel.go (wx/: the caller's context ends during the uploads).
 package main
 
 import (
@@ -78,7 +80,7 @@ type cluster struct {
 	read     []*node // read replicas in read order
 	nonRead  []*node // write replicas that are not read replicas
 	s        blobserver.Storage
-	minCfg   string // "explicit" | "default"
+	minCfg   string  // "explicit" | "default"
 	xs       []*node // all read-only replicas (config family, cfgwrite.go); x = xs[0]
 	label    string  // config family: name of the configuration
 	family   string  // case-id prefix of the family that runs on this cluster ("" = "w")
